@@ -1172,7 +1172,12 @@ where
             .try_for_each(|byte| self.native_gadget.assert_equal_to_fixed(layouter, byte, false))?;
         let bits = bits[0..nb_bits].to_vec();
         if enforce_canonical && nb_bits >= K::NUM_BITS as usize {
-            let canonical = self.is_canonical(layouter, &bits)?;
+            // Bits above the size of the modulus must be zero in a canonical encoding.
+            let (low_bits, high_bits) = bits.split_at(K::NUM_BITS as usize);
+            high_bits
+                .iter()
+                .try_for_each(|bit| self.native_gadget.assert_equal_to_fixed(layouter, bit, false))?;
+            let canonical = self.is_canonical(layouter, low_bits)?;
             self.assert_equal_to_fixed(layouter, &canonical, true)?;
         }
         Ok(bits)
